@@ -586,6 +586,18 @@ def _one(draw, allow_known=False, max_depth=4, prefix="", allow_boom=True, kinds
             for name in ("ifexp", "and", "or", "chain", "walrus", "boom", "mz", "sub", "field", "tupidx", "g2", "g3", "adv", "oob", "hof"):
                 if _contains(t, name):
                     labels.add("has:" + name)
+    if allow_boom and not classical and not g.boomed and draw(st.booleans()):
+        # the program ends in a run-time failure of an implicit check (array bounds) or an explicit panic,
+        # followed by statements that must not run: nothing of them may show up in the result stream
+        g.boomed = True
+        k_ = g.nk()
+        form = draw(st.integers(0, 3))
+        bad = draw(st.integers(3, 6))
+        lines += {0: [f"yb_ = xs[ti({k_}, {bad})]", 'result("after", 1)', 'result("after", yb_)'],
+                  1: [f"xs[ti({k_}, {bad})] = 7", 'result("after", 2)', 'result("xs", xs)'],
+                  2: [f"xs[ti({k_}, {bad})] += 1", 'result("after", 3)'],
+                  3: [f"yb_ = boom({k_})", 'result("after", 4)', 'result("after", yb_)']}[form]
+        labels.add("final_panic:" + ["oob_read", "oob_write", "oob_aug", "boom"][form])
     body = "\n".join("    " + l for l in lines)
     src = "\n".join(fdefs) + f"\n@guppy\ndef {prefix}main() -> None:\n" + body + "\n"
     return {"body": src, "labels": sorted(labels), "nontrivial": max_leafcount >= 3 and sc,
